@@ -50,6 +50,7 @@ type Plan struct {
 	TickMs     int    `json:"tick_ms"`
 	StrictDirs bool   `json:"strict_dirs"` // also compare the set of directories
 	Git        bool   `json:"git"`         // replay in a real repository with git
+	ModelOnly  bool   `json:"model_only"`  // with Git: go-git is not called at all, the model alone is compared with git (validation of the model)
 	Steps      []Step `json:"steps"`
 }
 
@@ -112,6 +113,8 @@ func genPlan(r *core.Rand, tier string) any {
 		p.Git = r.Chance(1, 25)
 	case "gitall": // development: every plan is replayed with git
 		p.Git = true
+	case "gitmodel": // development: long histories of model against git, without go-git
+		p.Git, p.ModelOnly = true, true
 	}
 	var bag []string
 	for _, k := range sortedKeys(weights) {
@@ -570,9 +573,24 @@ func execPlan(t *testing.T, pa any) (out core.Outcome) {
 		}
 		d.Advance(d.Tick)
 		pre := listWT(d)
+		if p.ModelOnly && g != nil {
+			_, rw, e := g.state()
+			if e != nil {
+				out.Inconclusive = "git-state-unreadable"
+				break
+			}
+			pre = rw
+		}
 		if userKinds[s.Kind] {
 			prims, desc := planEdit(s, pre)
 			logf("step %d: user: %s", i, desc)
+			if p.ModelOnly && g != nil {
+				if err := g.apply(prims); err != nil {
+					out.Inconclusive = "user-edit-failed"
+					break
+				}
+				continue
+			}
 			if err := applySim(d, prims); err != nil {
 				out.Inconclusive = "user-edit-failed"
 				out.Message = err.Error()
@@ -588,6 +606,8 @@ func execPlan(t *testing.T, pa any) (out core.Outcome) {
 		ig := newIgnorer(pre)
 		var r result
 		var cerr error
+		var call func() error
+		desc := ""
 		op := s.Kind
 		var gitCmds [][]string
 		isCommit := false
@@ -607,14 +627,14 @@ func execPlan(t *testing.T, pa any) (out core.Outcome) {
 			} else {
 				gitCmds = [][]string{{"add", "-f", "--", path}}
 			}
-			_, cerr = wt.Add(path)
-			logf("step %d: Add(%q) [%s]: %s", i, path, op, porc.ErrKind(cerr))
+			call = func() error { _, e := wt.Add(path); return e }
+			desc = fmt.Sprintf("Add(%q) [%s]", path, op)
 		case "addall":
 			op = "add-all"
 			r = gitAdd(mx, pre, ".", false)
 			gitCmds = [][]string{{"add", "-A"}}
-			cerr = wt.AddWithOptions(&git.AddOptions{All: true})
-			logf("step %d: AddWithOptions{All}: %s", i, porc.ErrKind(cerr))
+			call = func() error { return wt.AddWithOptions(&git.AddOptions{All: true}) }
+			desc = "AddWithOptions{All}"
 		case "addglob":
 			op = "add-glob"
 			pattern := addGlobs[mod(s.A, len(addGlobs))]
@@ -634,12 +654,16 @@ func execPlan(t *testing.T, pa any) (out core.Outcome) {
 				}
 			}
 			r = result{idx: cur.clone(), wt: pre.clone()}
-			if s.F {
-				cerr = wt.AddWithOptions(&git.AddOptions{Glob: pattern})
-			} else {
-				cerr = wt.AddGlob(pattern)
+			if len(gitCmds) == 0 {
+				r = unchanged(mx, pre, "the pattern matches nothing")
 			}
-			logf("step %d: AddGlob(%q): %s", i, pattern, porc.ErrKind(cerr))
+			call = func() error {
+				if s.F {
+					return wt.AddWithOptions(&git.AddOptions{Glob: pattern})
+				}
+				return wt.AddGlob(pattern)
+			}
+			desc = fmt.Sprintf("AddGlob(%q)", pattern)
 		case "rm":
 			path := allPaths[mod(s.A, len(allPaths))]
 			if path == "." {
@@ -651,15 +675,15 @@ func execPlan(t *testing.T, pa any) (out core.Outcome) {
 			}
 			r = gitRm(mx, pre, path)
 			gitCmds = [][]string{{"rm", "-r", "-f", "-q", "--", path}}
-			_, cerr = wt.Remove(path)
-			logf("step %d: Remove(%q) [%s]: %s", i, path, op, porc.ErrKind(cerr))
+			call = func() error { _, e := wt.Remove(path); return e }
+			desc = fmt.Sprintf("Remove(%q) [%s]", path, op)
 		case "rmglob":
 			op = "rm-glob"
 			pattern := rmGlobs[mod(s.A, len(rmGlobs))]
 			r = gitRm(mx, pre, pattern)
 			gitCmds = [][]string{{"rm", "-r", "-f", "-q", "--", pattern}}
-			cerr = wt.RemoveGlob(pattern)
-			logf("step %d: RemoveGlob(%q): %s", i, pattern, porc.ErrKind(cerr))
+			call = func() error { return wt.RemoveGlob(pattern) }
+			desc = fmt.Sprintf("RemoveGlob(%q)", pattern)
 		case "mv":
 			op = "mv"
 			from := filePaths[mod(s.A, len(filePaths))]
@@ -671,8 +695,8 @@ func execPlan(t *testing.T, pa any) (out core.Outcome) {
 				}
 			}
 			gitCmds = append(gitCmds, []string{"mv", "--", from, to})
-			_, cerr = wt.Move(from, to)
-			logf("step %d: Move(%q, %q): %s", i, from, to, porc.ErrKind(cerr))
+			call = func() error { _, e := wt.Move(from, to); return e }
+			desc = fmt.Sprintf("Move(%q, %q)", from, to)
 		case "clean":
 			op = "clean"
 			gitCmds = [][]string{{"clean", "-f", "-q"}}
@@ -681,8 +705,8 @@ func execPlan(t *testing.T, pa any) (out core.Outcome) {
 				gitCmds = [][]string{{"clean", "-f", "-d", "-q"}}
 			}
 			r = gitClean(mx, pre, s.F)
-			cerr = wt.Clean(&git.CleanOptions{Dir: s.F})
-			logf("step %d: Clean{Dir:%v}: %s", i, s.F, porc.ErrKind(cerr))
+			call = func() error { return wt.Clean(&git.CleanOptions{Dir: s.F}) }
+			desc = fmt.Sprintf("Clean{Dir:%v}", s.F)
 		case "commit":
 			op = "commit"
 			isCommit = true
@@ -701,14 +725,44 @@ func execPlan(t *testing.T, pa any) (out core.Outcome) {
 				r = result{idx: nx.clone(), wt: pre.clone()}
 			}
 			nCommit++
-			h, e := wt.Commit(fmt.Sprintf("history commit %d", nCommit), &git.CommitOptions{Author: gen.Sig(300 + nCommit), Committer: gen.Sig(300 + nCommit), All: s.F})
-			cerr = e
-			commitHash = h.String()
-			logf("step %d: Commit{All:%v}: %s", i, s.F, porc.ErrKind(cerr))
+			call = func() error {
+				h, e := wt.Commit(fmt.Sprintf("history commit %d", nCommit), &git.CommitOptions{Author: gen.Sig(300 + nCommit), Committer: gen.Sig(300 + nCommit), All: s.F})
+				commitHash = h.String()
+				return e
+			}
+			desc = fmt.Sprintf("Commit{All:%v}", s.F)
 		default:
 			logf("step %d: unknown kind %q skipped", i, s.Kind)
 			continue
 		}
+		if p.ModelOnly {
+			// validation of the model alone: git is the only actor
+			if g == nil {
+				break
+			}
+			logf("step %d: model-only %s", i, desc)
+			if r.unmodeled != "" {
+				logf("   not judged: %s", r.unmodeled)
+				break
+			}
+			msg := g.replay(gitCmds, r, isCommit && !r.refused, wantTree)
+			for _, c := range gitCmds {
+				logf("   git %s", strings.Join(c, " "))
+			}
+			if msg != "" {
+				out.Fail("C28|harness|model-vs-git|"+op, "step %d (%s): the reference model disagrees with git 2.39: %s", i, op, msg)
+				break
+			}
+			out.Probe("git-replayed:" + op)
+			out.NonTrivial = true
+			mx = r.idx
+			if isCommit && !r.refused {
+				headTree = wantTree
+			}
+			continue
+		}
+		cerr = call()
+		logf("step %d: %s: %s", i, desc, porc.ErrKind(cerr))
 		for _, c := range statePresent(mx, pre, ig) {
 			out.Probe("state:" + c)
 		}
